@@ -419,7 +419,9 @@ func TestVF_C08_MultiNode(t *testing.T) {
 	st := vfshared.NewStats("C08", part, "routing world on 2-3 proxy instances (real intra-proxy managers connected by real gRPC in the bubble): generated traffic with stream breaks, reconnects and target streams moving between instances; then every cluster-facing stream ends and the instances exchange their (now empty) shard sets and reconcile; oracle: no panic; on every instance no shard, channel, cancel function, active receiver, intra-proxy sender or receiver remains registered and no goroutine is left; non-trivial = a stream broke or moved while tasks had been forwarded between instances")
 	defer st.Flush()
 	run := func(tt interface{ Fatalf(string, ...any) }, c rwCase) {
+		stop := vfLockWatchdog(st, "C08", part, c, 90*time.Second)
 		res := rwRun(t, c, rwOptions{})
+		stop()
 		msg := ""
 		switch {
 		case len(res.Panics) > 0:
@@ -471,5 +473,120 @@ func TestVF_C08_MultiNode(t *testing.T) {
 			}
 		}
 		run(rt, c)
+	})
+}
+
+// ---- the registries under real parallelism
+
+// TestVF_C08_RegistryStress: "in any interleaving" includes interleavings inside the registry functions themselves, which
+// the schedule points cannot reach. Several goroutines on real cores call the shard manager's registry functions the way
+// overlapping incarnations do (register, terminate predecessor, set / remove ack channel and cancel function, remove
+// delivery channel, unregister) on the same two shards as fast as they can. Oracle: every call returns (a lock-order
+// inversion or a leaked lock shows up as locks that cannot be taken: vfLockWatchdog), nothing panics, and after a final
+// sequential clean-up nothing is left registered.
+func TestVF_C08_RegistryStress(t *testing.T) {
+	const part = "registrystress"
+	if rp := vfshared.ReplayPart(); rp != "" && rp != part {
+		t.Skip()
+	}
+	st := vfshared.NewStats("C08", part, "real parallelism: 4-8 goroutines call the shard manager's registry functions (RegisterShard/UnregisterShard, TerminatePreviousLocalReceiver, Set/RemoveLocalAckChan, SetLocalReceiverCancelFunc, Set/RemoveRemoteSendChan, Register/UnregisterActiveReceiver) on two shards concurrently, 2 000-10 000 calls each; oracle: all calls return (otherwise the watchdog reports which registry locks are held for good), no panic, nothing left after a sequential clean-up; non-trivial = every case")
+	defer st.Flush()
+	type sCase struct {
+		Workers int `json:"workers"`
+		Iters   int `json:"iters"`
+		Mix     int `json:"mix"`
+	}
+	run := func(tt interface{ Fatalf(string, ...any) }, c sCase) {
+		lp := logging.NewLoggerProvider(vfNoop(), config.NewMockConfigProvider(config.S2SProxyConfig{}))
+		sm := NewShardManager(nil, config.ShardCountConfig{Mode: config.ShardCountRouting, LocalShardCount: 2, RemoteShardCount: 2}, encryption.TLSConfig{}, lp).(*shardManagerImpl)
+		sms := []*shardManagerImpl{sm}
+		vfCurrentSMs.Store(&sms)
+		stop := vfLockWatchdog(st, "C08", part, c, 60*time.Second)
+		shards := []history.ClusterShardID{{ClusterID: 1, ShardID: 1}, {ClusterID: 1, ShardID: 2}}
+		var wg sync.WaitGroup
+		panics := make(chan string, c.Workers)
+		for k := 0; k < c.Workers; k++ {
+			wg.Add(1)
+			go func(k int) {
+				defer wg.Done()
+				defer func() {
+					if r := recover(); r != nil {
+						panics <- fmt.Sprint(r)
+					}
+				}()
+				x := uint32(k*7919 + c.Mix)
+				for i := 0; i < c.Iters; i++ {
+					x = x*1664525 + 1013904223
+					sh := shards[(x>>8)%2]
+					switch (x >> 16) % 9 {
+					case 0:
+						at := sm.RegisterShard(sh)
+						sm.UnregisterShard(sh, at)
+					case 1:
+						sm.TerminatePreviousLocalReceiver(sh, vfNoop())
+					case 2, 3:
+						ch := make(chan RoutedAck, 1)
+						_, cancel := context.WithCancel(context.Background())
+						sm.SetLocalAckChan(sh, ch)
+						sm.SetLocalReceiverCancelFunc(sh, cancel)
+						sm.RemoveLocalAckChan(sh, ch)
+						cancel()
+					case 4:
+						ch := make(chan RoutedMessage, 1)
+						sm.SetRemoteSendChan(sh, ch)
+						sm.RemoveRemoteSendChan(sh, ch)
+					case 5:
+						_, _ = sm.GetLocalAckChan(sh)
+						_, _ = sm.GetLocalReceiverCancelFunc(sh)
+						_ = sm.GetChannelInfo()
+					case 6:
+						sm.RemoveLocalReceiverCancelFunc(sh)
+					case 7:
+						sm.UnregisterActiveReceiver(sh)
+						_, _ = sm.GetActiveReceiver(sh)
+					case 8:
+						_ = sm.GetLocalShards()
+						_ = sm.IsLocalShard(sh)
+					}
+				}
+			}(k)
+		}
+		wg.Wait()
+		stop()
+		select {
+		case p := <-panics:
+			rp := vfshared.WriteReplay("C08", part, c)
+			st.Violation(rp, "a registry function panicked under concurrent use: "+p)
+			tt.Fatalf("C08 violated: registry panic: %s (replay %s)", p, rp)
+		default:
+		}
+		for _, sh := range shards {
+			sm.TerminatePreviousLocalReceiver(sh, vfNoop())
+			sm.RemoveLocalReceiverCancelFunc(sh)
+			sm.UnregisterActiveReceiver(sh)
+		}
+		if ci := sm.GetChannelInfo(); ci.TotalAckChannels != 0 || ci.TotalSendChannels != 0 || len(sm.GetLocalShards()) != 0 {
+			rp := vfshared.WriteReplay("C08", part, c)
+			msg := fmt.Sprintf("after every worker removed what it had registered, %d ack channel(s), %d delivery channel(s) and %d shard(s) remain", ci.TotalAckChannels, ci.TotalSendChannels, len(sm.GetLocalShards()))
+			st.Violation(rp, msg)
+			tt.Fatalf("C08 violated: %s (replay %s)", msg, rp)
+		}
+		st.Case(vfshared.Fingerprint(fmt.Sprintf("%+v", c)), true)
+		if st.WantSample() {
+			st.Sample(c)
+		}
+	}
+	if f := vfshared.ReplayFile(); f != "" {
+		var c sCase
+		if _, err := vfshared.LoadReplay(f, &c); err != nil {
+			t.Fatal(err)
+		}
+		for i := 0; i < 10; i++ {
+			run(t, c)
+		}
+		return
+	}
+	rapid.Check(t, func(rt *rapid.T) {
+		run(rt, sCase{Workers: rapid.IntRange(4, 8).Draw(rt, "workers"), Iters: rapid.IntRange(2000, 10000).Draw(rt, "iters"), Mix: rapid.IntRange(0, 1<<20).Draw(rt, "mix")})
 	})
 }
